@@ -384,8 +384,16 @@ def member_values(draw):
             if m['type'] is not None:
                 sites.append((n, d['name'], d['k'], m['name'], m['type']))
     items = []
-    for _ in range(draw(st.integers(4, 12)) if sites else 0):
-        site = draw(st.sampled_from(sites))
+    # members of sibling unions (children of one parent) that share a name but not a type: construct both
+    picks = []
+    tagged = [x for x in sites if x[2] == 'union']
+    for i, a in enumerate(tagged):
+        for b in tagged[i + 1:]:
+            da, db = idx.get(a[0], a[1]), idx.get(b[0], b[1])
+            if a[3] == b[3] and a[4] != b[4] and da.get('parent') and da.get('parent') == db.get('parent'):
+                picks += [a, b]
+    for k in range(draw(st.integers(4, 12)) if sites else 0):
+        site = picks[k] if k < min(len(picks), 6) else draw(st.sampled_from(sites))
         if costs.texpr(site[4]) >= values.Costs.INF:
             continue
         v = draw(values.value_for(idx, costs, site[4], fuel=draw(st.integers(0, 2))))
